@@ -52,6 +52,7 @@ type Ev struct {
 	Dur   int64         `json:"dur,omitempty"`  // advance: milliseconds
 	Body  []Ev          `json:"body,omitempty"`
 	Fail  bool          `json:"fail,omitempty"`
+	Tag   string        `json:"tag,omitempty"`  // tx: the transaction's tag ("" = "t")
 	S     uint64        `json:"s,omitempty"`
 	Json  string        `json:"json,omitempty"` // patch: target document
 }
